@@ -49,7 +49,7 @@ class Event:
         self.info = info
 
     def loc(self):
-        if self.kind == "binop":
+        if self.kind in ("binop", "view"):
             return self.body.file_line(self.info["stmt"]["loc"])
         return self.body.file_line(self.body.term(self.bb)["loc"])
 
@@ -272,6 +272,24 @@ class Env:
         self._events[key] = out
         return out
 
+    def view_adts(self):
+        """local structs that are owning views into storage: exactly one raw-pointer field and one usize field, and a
+        Drop impl; returns {adt path: {ptr: field idx, len: field idx}}"""
+        v = getattr(self, "_views", None)
+        if v is not None:
+            return v
+        v = {}
+        for path, a in self.F.adts.items():
+            if a["kind"] != "Struct" or not a.get("drop_fn"):
+                continue
+            fs = a["variants"][0]["fields"]
+            ptrs = [i for i, f in enumerate(fs) if f["ty"].get("k") == "ptr"]
+            lens = [i for i, f in enumerate(fs) if f["ty"]["s"] == "usize"]
+            if len(ptrs) == 1 and len(lens) == 1 and len(fs) == 2:
+                v[path] = {"ptr": ptrs[0], "len": lens[0]}
+        self._views = v
+        return v
+
     def flat_events(self, body, self_adt=None, world=None, max_depth=6):
         """events of body with crate-local callees inlined; each event carries top_bb (block of `body`) and chain"""
         ctx = self.ctx(body, self_adt, world)
@@ -299,6 +317,22 @@ class Env:
                         e = Event("binop", bi, ctx, None, (self.ev.operand(ctx, s["rv"]["a"]),
                                                            self.ev.operand(ctx, s["rv"]["b"])),
                                   op=base, raw_op=op, stmt=s, ty=body.locals[s["place"]["l"]]["ty"]["s"])
+                        e.info["top_bb"] = bi if top_bb is None else top_bb
+                        e.info["chain"] = chain
+                        out.append(e)
+        # constructions of view structs (a raw pointer into storage + a length, with a Drop impl)
+        views = self.view_adts()
+        if views:
+            for bi, blk in enumerate(body.blocks):
+                if blk["cleanup"]:
+                    continue
+                for s in blk["stmts"]:
+                    if s["k"] == "assign" and s["rv"]["k"] == "aggregate" and s["rv"].get("ak") == "adt" \
+                            and norm_std(s["rv"]["adt"]) in views:
+                        v = views[norm_std(s["rv"]["adt"])]
+                        ops = tuple(self.ev.operand(ctx, o) for o in s["rv"]["ops"])
+                        e = Event("view", bi, ctx, None, (ops[v["ptr"]], ops[v["len"]]), adt=norm_std(s["rv"]["adt"]),
+                                  stmt=s)
                         e.info["top_bb"] = bi if top_bb is None else top_bb
                         e.info["chain"] = chain
                         out.append(e)
